@@ -63,8 +63,10 @@ ECall ==
 ESimEnd == SimEnd /\ ~st.on /\ UNCHANGED <<m, st>>
 
 \* ---- a step, by schedule inference ---------------------------------------------------------
+\* (a step event whose reported table has another length than the specification's is left to PyTrace's own clauses)
 EStepBegin ==
   /\ l <= Len(Rec) /\ Rec[l].op = "step" /\ bad = "" /\ ~st.on
+  /\ Len(Rec[l].orders) = Len(m.books[1].orders) /\ Len(Rec[l].trades) >= Len(trades)
   /\ st' = [on |-> TRUE, left |-> 1..Len(m.pending), k |-> 0, start |-> m.books[1].now,
             books |-> <<ResetTVolF(m.books[1])>>]
   /\ UNCHANGED <<tvars, m>>
@@ -140,7 +142,13 @@ EStepEnd ==
                          ELSE "")
   /\ st' = Idle
 
-ENext == EReset \/ ECall \/ ESimEnd \/ EStepBegin \/ (\E i \in EEnabled : EProcess(i)) \/ EStepEnd
+EStepMalformed ==
+  /\ l <= Len(Rec) /\ Rec[l].op = "step" /\ bad = "" /\ ~st.on
+  /\ ~(Len(Rec[l].orders) = Len(m.books[1].orders) /\ Len(Rec[l].trades) >= Len(trades))
+  /\ CallUpdate(Rec[l], LET v == CallVerdict(Rec[l]) IN IF v # "" THEN v ELSE "ENGINE:a_step_neither_creates_orders_nor_removes_trades")
+  /\ UNCHANGED <<m, st>>
+
+ENext == EStepMalformed \/ EReset \/ ECall \/ ESimEnd \/ EStepBegin \/ (\E i \in EEnabled : EProcess(i)) \/ EStepEnd
 ESpec == EInit /\ [][ENext]_evars
 
 \* schedules that differ only in the ghost enqueue counters lead to the same later behaviour
